@@ -61,5 +61,18 @@ for pid in ids or sorted(props):
                          "often even the right value); the violation must only be visible through a RELATION the property implies between SEVERAL results or calls: a round trip, an inverse pair, monotonicity or strict order "
                          "across neighbouring inputs, agreement of two functions that must agree, a later call on the same object or the same arguments, the sum or count of parts against the whole. "
                          "Single goroutine, inputs of moderate size (up to a few thousand elements), no environment dependence.")
+    if variant == "ij":
+        variant = "i" if int(pid[1:]) % 2 else "j"
+    if variant == "i":
+        hint = common.replace("six earlier rounds", "eight earlier rounds") + ("THIS ROUND'S RESTRICTION: the defect must consist of TWO cooperating edit sites (in one or two functions or files) that each look "
+                         "correct, or at least harmless, when read alone - each alone must leave the property intact (verify that: apply each site alone and run your demonstration; it must pass) - and only "
+                         "together break the property, for a narrow class of inputs or call sequences. Typical shapes: a helper whose contract is silently widened or narrowed while one caller relies on the old "
+                         "contract; a representation invariant relaxed at the producer and still assumed by the consumer; a constant or table changed consistently in two places but not in a third. "
+                         "Describe in the README what each site does alone.")
+    elif variant == "j":
+        hint = common.replace("six earlier rounds", "eight earlier rounds") + ("Take your time to read ALL code the property depends on (including helpers in other packages it calls) and look for the most SUBTLE defect "
+                         "you can construct: one that a careful reviewer would approve, that survives the existing tests, and that manifests for as narrow and as unexpected a class of legitimate uses as possible - "
+                         "unexpected in KIND, not just rarer: think about what a caller may legitimately do with the arguments before and the results after the call, in which order and from where calls may come, "
+                         "what the data may look like in memory, and which values the types admit.")
     open(os.path.join(root, pid + ".prompt.txt"), "w").write(tmpl.replace("@DIR@", d).replace("@PROPERTY@", text).replace("@HINT@", hint))
     print(pid, len(tried.get(pid, [])), "earlier mechanisms")
